@@ -228,7 +228,7 @@ fn enumerate_expiry(ctx: &mut Ctx, s: &Session, l1: &[Mv], tf: &ThreeFold, tf_us
     let cap: u64 = match ctx.tier {
         Tier::Quick => 1200,
         Tier::Thorough => 4000,
-    };
+    } / crate::trace::budget_divisor();
     let mut first_some: Option<u64> = None;
     let mut k = 0u64;
     let mut searches = 0u64;
@@ -274,9 +274,9 @@ fn enumerate_expiry(ctx: &mut Ctx, s: &Session, l1: &[Mv], tf: &ThreeFold, tf_us
     // sampled larger expiries
     let extra = if terminal { 2 } else { 3 };
     for _ in 0..extra {
-        let hi: u32 = if terminal { 70_000 } else { 200_000 };
+        let hi: u32 = (if terminal { 70_000 } else { 200_000 }) / crate::trace::budget_divisor() as u32;
         // on a terminal root every pass costs one poll: go beyond the 16-bit depth range now and then
-        let kk = if terminal && ctx.tape.choose(4) == 3 { 66_000 } else { ctx.tape.log_uniform(hi) as u64 };
+        let kk = if terminal && ctx.tape.choose(4) == 3 && crate::trace::budget_divisor() == 1 { 66_000 } else { ctx.tape.log_uniform(hi) as u64 };
         if terminal && kk > 60_000 {
             ctx.stats.bump("probe.terminal-root-beyond-u16-passes");
         }
@@ -354,7 +354,7 @@ fn mate_in_one(ctx: &mut Ctx, s: &Session, _l1: &[Mv], tf: &ThreeFold) -> Step {
         1 => ctx.stats.bump("c12.positions.one-mate"),
         _ => ctx.stats.bump("c12.positions.several-mates"),
     }
-    let big: u64 = 150_000;
+    let big: u64 = 150_000 / crate::trace::budget_divisor();
     let o = search(&s.board, tf, big, positional);
     ctx.stats.add("sim.clock-ticks", o.polls);
     ctx.observe_u64(o.polls);
@@ -389,7 +389,7 @@ fn depth_scores(board: &Board, stats: &mut Stats) -> Vec<Option<Score>> {
     let tf = ThreeFold::new();
     let mut out: Vec<Option<Score>> = vec![None; 4];
     let mut k: u64 = 48;
-    while k <= 160_000 {
+    while k <= 160_000 / crate::trace::budget_divisor() {
         let o = search(board, &tf, k, false);
         stats.add("sim.clock-ticks", o.polls);
         if let Some(d) = o.completed {
